@@ -429,7 +429,7 @@ fn g_illformed(src: &mut Src, obs: &mut Obs) -> CaseResult {
 /// the 64-byte cut. words: [scalar (raw), position selector]
 fn g_scalar(src: &mut Src, obs: &mut Obs) -> CaseResult {
     let cp = src.word();
-    let sel = src.below(4);
+    let sel = src.below(7);
     let Some(c) = char::from_u32(cp) else {
         obs.excluded = true;
         return Ok(());
@@ -437,6 +437,25 @@ fn g_scalar(src: &mut Src, obs: &mut Obs) -> CaseResult {
     let s = match sel {
         0 => format!("ab{}cd", c),
         1 => format!("{}", c),
+        // the character ENDS exactly at byte 64 and text follows: the kept prefix ends with it
+        4 => {
+            let start = 64 - c.len_utf8();
+            let mut s: String = (0..start).map(|i| (b'a' + (i % 26) as u8) as char).collect();
+            s.push(c);
+            s.push_str("tail-after-the-cut");
+            s
+        }
+        // nothing but this character, far beyond the limit (the kept prefix starts and ends with it)
+        5 => std::iter::repeat(c).take(70 / c.len_utf8() + 2).collect(),
+        // alternating with another character, starting with this one
+        6 => {
+            let mut s = String::new();
+            while s.len() <= 70 {
+                s.push(c);
+                s.push('\u{20ac}');
+            }
+            s
+        }
         // the character starts at offset 64 - k so that it straddles (or just precedes) the cut
         k => {
             let start = 64 - (k - 1).min(c.len_utf8());
@@ -528,11 +547,14 @@ pub fn run(ctx: &mut Ctx) {
     ctx.enumerate(
         &G_SCALAR,
         (0u32..0x11_0000).filter(|c| !(0xD800..0xE000).contains(c)).flat_map(move |c| {
-            let sels: Vec<usize> = if quick { vec![(c % 4) as usize] } else { vec![0, 1, 2, 3] };
-            sels.into_iter().map(move |k| vec![c, idx(k, 4)])
+            // quick: one rotating position per scalar, all positions for the characters that text
+            // processing singles out (joiners, variation selectors, marks, tags, BOM ...)
+            let special = matches!(c, 0x200B..=0x200F | 0x2028..=0x202E | 0x2060..=0x2064 | 0xFE00..=0xFE0F | 0xFEFF | 0x0300..=0x036F | 0xE0001 | 0xE0020..=0xE007F | 0x1F3FB..=0x1F3FF | 0x00 | 0x20 | 0xA0);
+            let sels: Vec<usize> = if quick && !special { vec![(c % 7) as usize] } else { vec![0, 1, 2, 3, 4, 5, 6] };
+            sels.into_iter().map(move |k| vec![c, idx(k, 7)])
         }),
     );
-    ctx.exhaustive.push("every Unicode scalar value in a short name and straddling the 64-byte cut".into());
+    ctx.exhaustive.push("every Unicode scalar value in a short name, straddling the 64-byte cut, ending exactly at it, repeated beyond it and alternating with another character".into());
     ctx.random(&G_RANDOM, &[], ctx.t(6_000, 300_000), 400);
     // (c) every icon length 0..=300, several contents each
     for n in 0..=300u32 {
